@@ -272,4 +272,45 @@ theorem emits_concat {F : FieldEnc} {message : Rt.SDict Rt.AnyVal} {cfg : Rt.SDi
       obtain ⟨parts, hl, hs⟩ := ih ht
       exact ⟨r :: parts, by simp [hl], by rw [hs]; simp⟩
 
+theorem any_pred_contains (i : Nat) : ∀ (ps : List Int), (∀ b ∈ ps, 1 ≤ b) →
+    ps.any (fun b => (b - 1).toNat == i) = (ps.map Int.toNat).contains (i + 1)
+  | [], _ => rfl
+  | p :: ps, hps => by
+    have hp := hps p (by simp)
+    simp only [List.any_cons, List.map_cons, List.contains_cons]
+    rw [any_pred_contains i ps (fun b hb => hps b (by simp [hb]))]
+    congr 1
+    by_cases he : (p - 1).toNat = i
+    · have : p.toNat = i + 1 := by omega
+      simp [he, this]
+    · have : ¬ (i + 1 = p.toNat) := by omega
+      have hb : ((p - 1).toNat == i) = false := beq_false_of_ne he
+      rw [hb]
+      simp [this]
+
+/-- the flags of `C02_source_loop_layout` are the model's `flagsOf` of the present element numbers, so the 16 bitmap
+    bytes are the model's `bitmapOf` -/
+theorem flags_eq_flagsOf (flags : List Bool) (ps : List Int) (hps : ∀ b ∈ ps, 1 ≤ b) (hl : flags.length = 128)
+    (h : ∀ i (hi : i < flags.length), flags[i] = (i == 0 || ps.any (fun b => (b - 1).toNat == i))) :
+    flags = Iso.flagsOf (ps.map Int.toNat) := by
+  apply List.ext_getElem
+  · rw [hl, Iso.flagsOf_length]
+  · intro i h1 h2
+    rw [h i h1]
+    simp only [Iso.flagsOf, List.getElem_map, List.getElem_range]
+    rw [any_pred_contains i ps hps]
+
+/-- C02 for the loop and assembly as translated, in the model's terms: the bitmap bytes are `Iso.bitmapOf` of the present
+    element numbers -/
+theorem C02_source_loop_bitmapOf (F : FieldEnc) (message : Rt.SDict Rt.AnyVal) (cfg : Rt.SDict Rt.BitCfg)
+    (enc : Text → Outcome Bytes) (out : Bytes)
+    (h : Src._dict_to_iso8583_loop F message cfg enc false = .ok out) :
+    ∃ mti body, mtiOf message enc = .ok mti ∧ Emits F message cfg enc (presentBits message) [] body ∧
+      out = (mti ++ Iso.bitmapOf ((presentBits message).map Int.toNat)) ++ body := by
+  obtain ⟨mti, body, flags, hm, he, hl, hf, ho⟩ := C02_source_loop_layout F message cfg enc false out h
+  refine ⟨mti, body, hm, he, ?_⟩
+  have hps : ∀ b ∈ presentBits message, 1 ≤ b := fun b hb => (range_bounds1 b (List.mem_filter.mp hb).1).1
+  rw [ho, flags_eq_flagsOf flags (presentBits message) hps hl hf, Iso.bitmapOf_eq]
+  rfl
+
 end Cardutil.SrcTie
